@@ -595,6 +595,22 @@ def catalog():
                        {"k": "union", "name": "expr", "swty": "int", "swvar": "kind", "arms": [{"labels": ["0"], "body": {"ty": "int", "name": "lit", "arr": None}},
                                                                                             {"labels": ["1"], "body": {"ty": "pair", "name": "add", "arr": None}}]},
                        {"k": "struct", "name": "pair", "fields": [{"ty": "expr", "name": "l", "arr": None, "opt": True}, {"ty": "expr", "name": "r", "arr": ["var", "1"], "opt": False}]}])
+    # every ordered pair of field forms in one struct (a decision taken once per struct instead of once per field shows here),
+    # each struct also used as the element of a counted array (where wire_size() steers the decoding)
+    pforms = [("ofix", "opaque", ["fixed", "3"]), ("ofixc", "opaque", ["fixed", "K"]), ("ovar", "opaque", ["var", ""]), ("ovarn", "opaque", ["var", "5"]),
+              ("ovarc", "opaque", ["var", "K"]), ("svar", "string", ["var", ""]), ("svarn", "string", ["var", "4"]), ("svarc", "string", ["var", "K"]),
+              ("int", "int", None), ("inner", "inner", None), ("ifix", "inner", ["fixed", "2"]), ("ivar", "inner", ["var", ""]), ("hyp", "hyper", None)]
+    for half in range(2):
+        pairs = []
+        for i, (n1, t1, a1) in enumerate(pforms):
+            for j, (n2, t2, a2) in enumerate(pforms):
+                if (i + j) % 2 != half:
+                    continue
+                pairs.append({"k": "struct", "name": "p_%s_%s" % (n1, n2), "fields": [
+                    {"ty": t1, "name": "a", "arr": a1, "opt": False}, {"ty": t2, "name": "b", "arr": a2, "opt": False}]})
+        pairs.append({"k": "struct", "name": "all_pairs", "fields": [
+            {"ty": q["name"], "name": "f%d" % k, "arr": ["var", "2"], "opt": False} for k, q in enumerate(pairs)]})
+        spec("struct:pairs%d" % half, pairs)
     spec("array-recursive", [{"k": "struct", "name": "forest", "fields": [{"ty": "forest", "name": "kids", "arr": ["var", ""], "opt": False}]},
                              {"k": "typedef", "ty": "grove", "name": "glist", "arr": ["var", ""]},
                              {"k": "struct", "name": "grove", "fields": [{"ty": "int", "name": "v", "arr": None, "opt": False}, {"ty": "glist", "name": "sub", "arr": None, "opt": False}]},
